@@ -1,7 +1,7 @@
 (* Property C08 - only statements, each closed by [exact]. *)
 From Coq Require Import NArith List Bool Sorting.Sorted Permutation.
 Import ListNotations.
-Require Import UV.C08.Model UV.C08.Proofs UV.C08.Figures UV.C08.Open UV.C08.Order UV.C08.Checker UV.C08.OpenSpec UV.C08.SortChecker.
+Require Import UV.C08.Model UV.C08.Proofs UV.C08.Figures UV.C08.Open UV.C08.Order UV.C08.Checker UV.C08.OpenSpec UV.C08.SortChecker UV.C08.Merge.
 Local Open Scope N_scope.
 
 (* The accumulation automaton of fstack_account_time + report_update_node (uint64 arithmetic, clamp
@@ -76,6 +76,15 @@ Theorem C08_table_order_irrelevant : forall nms rows rows',
   Permutation rows rows' -> table_of_rows nms rows = table_of_rows nms rows'.
 Proof. exact table_perm. Qed.
 Print Assumptions C08_table_order_irrelevant.
+
+(* Several tasks: the read loop over the records of n tasks merged in ANY order (the code merges by time),
+   one state per task, then add_remaining_fstack task by task, gives the same report as handling the tasks
+   one after the other (what [report] does). *)
+Theorem C08_merge_irrelevant : forall max_stack nms n ms, (forall p, In p ms -> (fst p < n)%nat) ->
+  table_of_rows nms (merged_rows max_stack n ms)
+  = report (mkcase max_stack nms (map (fun i => proj i ms) (seq 0 n))).
+Proof. exact merge_irrelevant. Qed.
+Print Assumptions C08_merge_irrelevant.
 
 (* The Self column of the whole table adds up to the Self times of all counted rows. *)
 Theorem C08_self_partition : forall nms rows, sumN (map w_self rows) < M64 ->
